@@ -17,6 +17,30 @@ CHECKS = {
     "C02": ("deterministic simulation with fault injection: geometry invariants evaluated after every simulated call of chaos sessions",
             "Seeded exploration: the statement's geometry invariants are evaluated through the public API after every feed_str / feed(char) / resize of PRNG-scheduled chaos sessions (resizes while the alternate screen shows, mid-sequence, with wrap pending; damaged streams; all sizes and limits).",
             "trusts: TextUnwrapper::push as the reader of the soft-wrap mark; 'col == cols only by printing' is checked as a necessary condition via the lock-step parser's function stream", "§5 C02"),
+    "C03": ("deterministic simulation at parser level: lock-step of the real parser with a table-driven reference parser over seeded sequence streams with truncation faults and resynchronisation; plus an enumerated single-step table (all scalars x 14 states x backgrounds)",
+            "Refinement against the small executable reference parser (an oracle kind of this family): seeded streams of complete, truncated and damaged sequences (truncation followed by CAN/SUB/ESC/C1/ST/BEL/nothing, then intact tokens - bounded recovery, no stale-parameter leakage) are compared state by state and function by function; the single-step table over every scalar value is enumerated and reported separately as such.",
+            "trusts: RefParser (Williams' table + the four stated deviations), parameters rebuilt per sequence; colour components > 255 outside the statement; the schedule dimension of this content property is truncation/resynchronisation only", "§5 C03"),
+    "C04": ("deterministic simulation: refinement of every Print/Rep step against the reference terminal model, in states produced by seeded sessions with resizes injected at any instant",
+            "Refinement against the reference model: one character per call, full observation after each; every Print/Rep post-state (cells, pens, marks, scrollback, cursor, frame) must equal step(observed pre-state + hidden model state, f). The simulator contributes the states only an environment event creates (wrap pending across a width change, region reset/kept by resizes, 1-column screens); it is a content property otherwise.",
+            "trusts: RefTerm (DESIGN.md §4) incl. its tolerated corners; current pen = model's fold of reported SGR functions", "§5 C04"),
+    "C05": ("deterministic simulation: refinement of every cursor-command step against the reference terminal model, in states produced by seeded sessions with resizes",
+            "Refinement against the reference model: for every cursor movement / addressing function the observed cursor must equal the model's (margins, origin mode, tab stops, wrap-pending column are hidden model state) and cells, marks and scrollback must be unchanged; resizes at any instant create the region-reset / region-kept states.",
+            "trusts: RefTerm; tolerated: cursor after an invalid DECSTBM, CBT from wrap-pending with a stop on the last column", "§5 C05"),
+    "C06": ("deterministic simulation: refinement of every scrolling step against the reference terminal model incl. scrollback growth in order, in states produced by seeded sessions with resizes",
+            "Refinement against the reference model: for every scrolling function the whole observable state (range shifted, blanks in the current pen, frame, scrollback grown by exactly the rows scrolled off a top-anchored primary range, in order) must equal the model's prediction from the observed pre-state; both screens; after resizes.",
+            "trusts: RefTerm; ED 3 tolerated; on the alternate screen only the view is compared", "§5 C06"),
+    "C11": ("deterministic simulation with fault injection: crash/restart at arbitrary character positions with only dump() surviving; behavioural equivalence by probe battery on forks, lock-step continuation and second-generation restart",
+            "Seeded exploration of snapshot instants (inside ESC/CSI/DCS/OSC sequences and parameter lists, on either screen, any modes): the restored terminal is compared with the original immediately, through ~48 single-purpose probes on forks, through the actual remainder of the session in lock-step and through a second-generation restart. Known findings F4/F5 are attributed by state predicates.",
+            "trusts: fork by replay of the event prefix; tracker state for the two matchers; continuations contain no resize", "§5 C11"),
+    "C16": ("deterministic simulation with fault injection: alternate-screen excursions with resizes injected during the excursion; primary screen compared before/throughout/after",
+            "Seeded exploration of excursions (enter 47/1047/1049, arbitrary input, resizes interleaved, leave by any of the three): blank entry in the current pen, text() constant throughout, primary lines() identical on return, 1049 cursor restore; with resizes the logical-line relation, geometry and same-character clause.",
+            "trusts: function stream for entry/exit, tracker pen and resized flag, logical-line reconstruction", "§5 C16"),
+    "C17": ("deterministic simulation: save/restore round trips with intervening input, screen switches, soft/hard resets and resizes; restored context measured by probes on forks",
+            "Seeded exploration of save -> anything -> restore histories on both screens for all four spellings: position equals the per-screen saved one (or lies inside the screen after a resize), pen / origin / auto-wrap are measured by single-purpose probes on forks and compared with the tracker's saved context.",
+            "trusts: hidden-state tracker (per-screen saved contexts, pen fold); multi-mode DECSET/DECRST not judged", "§5 C17"),
+    "C18": ("deterministic simulation with fault injection: chains of resize events around tab set/clear operations; measurement sweeps on forks against a set model and a fresh-terminal twin",
+            "Seeded exploration of widths (biased to multiples of 8 +-1), set/clear operations at all columns and resize chains: HT/CBT/CHT n/CBT n sweeps on forks must visit exactly the stops of the set model, and a never-customised terminal must tab like a fresh one of the current width.",
+            "trusts: tracker tab-stop set (defaults, narrowing drops, widening adds multiples of 8 in [old,new))", "§5 C18"),
     "C09": ("deterministic simulation: configuration/chunking twins of a text session (S6 swarm + S1), text oracle from the input",
             "Seeded exploration of (text, geometry, chunking) triples: the same text is fed under two geometries and an arbitrary chunking; text() and TextUnwrapper(lines()) are compared with the input lines and across geometries. A content property: the simulator contributes the configurations and cut points, the deciding oracle is the twin comparison.",
             "trusts: the reference 'input split at CR LF, right-trimmed'; white space other than U+0020 and DEL are not generated", "§5 C09"),
